@@ -34,7 +34,7 @@ mod vx_kani_derive_seeds {
     macro_rules! seeds1 {
         ($name:ident, $k:expr) => {
             #[kani::proof]
-            #[kani::unwind(4)]
+            #[kani::unwind(6)]
             #[kani::stub(RandomState::new, fixed_random_state)]
             fn $name() {
                 let (s, _) = state();
@@ -51,7 +51,7 @@ mod vx_kani_derive_seeds {
     macro_rules! seeds2 {
         ($name:ident, $k:expr) => {
             #[kani::proof]
-            #[kani::unwind(4)]
+            #[kani::unwind(6)]
             #[kani::stub(RandomState::new, fixed_random_state)]
             fn $name() {
                 let (s, _) = state();
@@ -66,7 +66,7 @@ mod vx_kani_derive_seeds {
     macro_rules! seeds3 {
         ($name:ident, $k:expr) => {
             #[kani::proof]
-            #[kani::unwind(4)]
+            #[kani::unwind(6)]
             #[kani::stub(RandomState::new, fixed_random_state)]
             fn $name() {
                 let (s, _) = state();
@@ -81,7 +81,7 @@ mod vx_kani_derive_seeds {
     macro_rules! seedsm {
         ($name:ident, $k1:expr, $k2:expr) => {
             #[kani::proof]
-            #[kani::unwind(4)]
+            #[kani::unwind(6)]
             #[kani::stub(RandomState::new, fixed_random_state)]
             fn $name() {
                 let (s, _) = state();
